@@ -173,6 +173,9 @@ func (s *scanner) setPaging(query ast.Query) {
 		query.SetSkip(0)
 	}
 	s.targetOffset = *query.GetSkip()
+	if s.targetOffset < 0 { // a negative skip skips nothing
+		s.targetOffset = 0
+	}
 
 	if query.GetLimit() == nil || *query.GetLimit() < 0 {
 		query.SetLimit(math.MaxInt64)
@@ -209,6 +212,9 @@ func (scanner *memSortingScanner[T]) Scan(store *ObjectStore[T], query ast.Query
 	// function instead of putting the comparison on the elements, so we don't need to store a context with each row
 	results := &llrb.Tree{}
 	maxResults := scanner.targetOffset + scanner.targetLimit
+	if maxResults < 0 { // offset + unbounded limit overflows
+		maxResults = math.MaxInt64
+	}
 	for cursor.IsValid() {
 		rowCursor.current = cursor.Current()
 		cursor.Next()
